@@ -127,6 +127,25 @@ void harness(void)
 		ASSERT(rv != 0 || !lo || NUMV(lo[gk]) == NUMV(O->lower[O->structmap[col_gk]]), "C06: lower of the k-th listed column");
 		ASSERT(rv != 0 || !up || NUMV(up[gk]) == NUMV(O->upper[O->structmap[col_gk]]), "C06: upper of the k-th listed column");
 	}
+#elif defined(FN_solution)
+	/* C01/C05: the accessor serves exactly the cached (certified) vectors */
+	O = qsv_mk_lpdata(&sz, 0); lp = qsv_mk_lpinfo(O);
+	{
+		mpq_ILLlp_cache *C = qsv_alloc(sizeof *C);
+		IN_BOOL(wv); IN_BOOL(wx); IN_BOOL(wpi); IN_BOOL(wsl); IN_BOOL(wrc); IN_INT(gk);
+		mpq_t val, *x = wx ? qsv_nums(sz.nstruct) : 0, *rc = wrc ? qsv_nums(sz.nstruct) : 0, *pi = wpi ? qsv_nums(sz.nrows) : 0, *sl = wsl ? qsv_nums(sz.nrows) : 0;
+		C->nstruct = sz.nstruct; C->nrows = sz.nrows; C->status = 1;
+		C->x = qsv_nums(sz.nstruct); C->rc = qsv_nums(sz.nstruct); C->pi = qsv_nums(sz.nrows); C->slack = qsv_nums(sz.nrows);
+		qsv_setnum(C->val, qsv_nondet_payload()); qsv_setnum(val, 0);
+		ASSUME(0 <= gk); qsv_g.gk = gk;
+		rv = mpq_ILLlib_solution(lp, C, wv ? &val : 0, x, pi, sl, rc);
+		ASSERT(rv == 0, "C01: a cached solution is served");
+		if (wv) ASSERT(NUMV(val) == NUMV(C->val), "C01: the objective value returned is the cached (certified) one");
+		if (wx && gk < sz.nstruct) ASSERT(NUMV(x[gk]) == NUMV(C->x[gk]), "C01: x[k] returned is the cached x[k] for every k");
+		if (wrc && gk < sz.nstruct) ASSERT(NUMV(rc[gk]) == NUMV(C->rc[gk]), "C01: rc[k] returned is the cached rc[k] for every k");
+		if (wpi && gk < sz.nrows) ASSERT(NUMV(pi[gk]) == NUMV(C->pi[gk]), "C01: pi[k] returned is the cached pi[k] for every k");
+		if (wsl && gk < sz.nrows) ASSERT(NUMV(sl[gk]) == NUMV(C->slack[gk]), "C01: slack[k] returned is the cached slack[k] for every k");
+	}
 #else
 #error "select a function with -DFN_<name>"
 #endif
